@@ -11,7 +11,9 @@
     NODE  := slice MODS TY elem CS | array MODS N items… REST CS | tuple MODS N items… req REST CS
            | map MODS OPT OPT CS | record MODS KS val loose partial CS | set MODS TY elem CS
            | object MODS N (name m opt exopt)… MODE OPT PART CS | struct MODS ptrC sid N (name m opt exopt)…
-           | union MODS N ids… | xor MODS N ids… | inter MODS l r | du MODS disc N (id m)… N opts… | lazy MODS direct t
+           | union MODS N ids… | xor MODS N ids… | inter MODS l r | du MODS disc N (m K val…)… | lazy MODS direct t
+             (du: the option LIST with the discriminator values each option declares; the index is built by
+              `Cont.buildDiscMap`, `Case.du` keeps the declaration)
     TABLE := N (mid V RES)…     RES := ok V | err N ISSUE…
     ISSUE := code N seg… N keys… expLazy hasMsg hasPath        seg := i<n> | k<n>
 -/
@@ -136,6 +138,17 @@ def part : P Partial
 def pair : P (Nat × Nat) := fun ts => do
   let (a, ts) ← nat ts; let (b, ts) ← nat ts; some ((a, b), ts)
 
+def duOpt : P DUOpt := fun ts => do
+  let (m, ts) ← nat ts; let (vs, ts) ← counted nat ts
+  some ({ m := m, vals := vs }, ts)
+
+/-- the option list of a discriminated union as written (`none` for every other kind). -/
+def duDecl : List String → Option (Mods × Nat × List DUOpt)
+  | "du" :: ts => do
+    let (m, ts) ← mods ts; let (d, ts) ← nat ts; let (os, _) ← counted duOpt ts
+    some (m, d, os)
+  | _ => none
+
 def node : P Node
   | "slice" :: ts => do
     let (m, ts) ← mods ts; let (t, ts) ← ty ts; let (e, ts) ← nat ts; let (cs, ts) ← counted sizeCk ts
@@ -169,8 +182,8 @@ def node : P Node
   | "inter" :: ts => do
     let (m, ts) ← mods ts; let (l, ts) ← nat ts; let (r, ts) ← nat ts; some (.inter m l r, ts)
   | "du" :: ts => do
-    let (m, ts) ← mods ts; let (d, ts) ← nat ts; let (dm, ts) ← counted pair ts; let (os, ts) ← counted nat ts
-    some (.du m d dm os, ts)
+    let (m, ts) ← mods ts; let (d, ts) ← nat ts; let (os, ts) ← counted duOpt ts
+    some (.du m d ((buildDiscMap os).getD []) (os.map (·.m)), ts)
   | "lazy" :: ts => do
     let (m, ts) ← mods ts; let (d, ts) ← bit ts; let (t, ts) ← nat ts; some (.lazy m d t, ts)
   | _ => none
@@ -232,14 +245,16 @@ structure Case where
   env : Env            -- what the container sees of its members (`Cont.seen skip own`)
   own : Env            -- the members' own verdicts (what the property speaks about)
   skip : List Nat
+  du : Option (Mods × Nat × List DUOpt) := none   -- a discriminated union's option list as written
   rest : List String
 
 def parseCase (ts : List String) : Option Case := do
   let ((c, sk), ts) ← cfg ts
+  let du := duDecl ts
   let (n, ts) ← node ts
   let (v, ts) ← val ts
   let (tbl, ts) ← counted entry ts
-  some { cfg := c, node := built sk n, written := n, input := v, env := seen sk (envOf tbl), own := envOf tbl, skip := sk, rest := ts }
+  some { cfg := c, node := built sk n, written := n, input := v, env := seen sk (envOf tbl), own := envOf tbl, skip := sk, du := du, rest := ts }
 
 /-! rendering of path sets -/
 
